@@ -91,7 +91,7 @@ def garbage_direction_last(act, x_scale):
     return (not np.isfinite(dn)) or dn > 1e6 * max(1.0, x_scale)
 
 
-def compare_restart(problem, cfg, blob, x_ref, maxiter, pseed, stats, n_pert=3, ref_act=None, rel_step_tol=None):
+def compare_restart(problem, cfg, blob, x_ref, maxiter, pseed, stats, n_pert=5, ref_act=None, rel_step_tol=None):
     """DESIGN 7.2: is the restart as close to the reference as rounding allows?
 
     Returns (verdict, info): verdict in {"ok", "vacuous", "fail", "raised"}.
